@@ -205,9 +205,13 @@ static sqf::runtime::runtime::result execute_do(sqf::runtime::runtime& runtime, 
 #endif // DF__SQF_RUNTIME__ASSEMBLY_DEBUG_ON_EXECUTE
 
 
-        SQFVM_VERIF_HOOK(before_instruction, runtime, context_active, **instruction);
+#ifdef SQFVM_RUNTIME_VERIF
+        // the frame owning the instruction may be popped by the instruction itself; monitors get a stable reference
+        auto verif_instruction = *instruction;
+#endif
+        SQFVM_VERIF_HOOK(before_instruction, runtime, context_active, *verif_instruction);
         (*instruction)->execute(runtime);
-        SQFVM_VERIF_HOOK(after_instruction, runtime, context_active, **instruction);
+        SQFVM_VERIF_HOOK(after_instruction, runtime, context_active, *verif_instruction);
 
 
         if (!runtime_error)
